@@ -14,15 +14,18 @@ import (
 )
 
 type Action struct {
-	A        string   `json:"a"`
-	P        string   `json:"p"`
-	N        string   `json:"n"`
-	Tree     *Node    `json:"tree,omitempty"`
-	Local    string   `json:"local"`
-	Prefix   string   `json:"prefix"`
-	Preamble []string `json:"preamble"`
-	Name     string   `json:"name"` // package name (New); default main
-	Ctor     string   `json:"ctor"` // NewFile | NewFilePath | NewFilePathName
+	A         string   `json:"a"`
+	P         string   `json:"p"`
+	N         string   `json:"n"`
+	Tree      *Node    `json:"tree,omitempty"`
+	Local     string   `json:"local"`
+	Prefix    string   `json:"prefix"`
+	Preamble  []string `json:"preamble"`
+	Name      string   `json:"name"` // package name (New); default main
+	Ctor      string   `json:"ctor"` // NewFile | NewFilePath | NewFilePathName
+	Headers   []string `json:"headers"`
+	Comments  []string `json:"comments"`
+	Canonical string   `json:"canonical"`
 }
 
 var probeCache = map[string]string{}
@@ -112,6 +115,13 @@ func newFile(a Action, noformat bool) *jen.File {
 	for _, c := range a.Preamble {
 		f.CgoPreamble(c)
 	}
+	for _, c := range a.Headers {
+		f.HeaderComment(c)
+	}
+	for _, c := range a.Comments {
+		f.PackageComment(c)
+	}
+	f.CanonicalPath = a.Canonical
 	return f
 }
 
@@ -173,7 +183,18 @@ func ReplayHistory(tw *TraceWriter, id int, h []Action) {
 	for _, c := range pre {
 		predoc += StripSpace(CommentText(c))
 	}
-	tw.Emit(Rec{"ev": "New", "trace": id, "local": h[0].Local, "prefix": h[0].Prefix, "preamble": preNodes, "predoc": predoc,
+	cmtNodes := func(cs []string) []*Node {
+		out := []*Node{}
+		for _, c := range cs {
+			out = append(out, CommentNode(c))
+		}
+		return out
+	}
+	canonq := ""
+	if h[0].Canonical != "" {
+		canonq = strconv.Quote(h[0].Canonical)
+	}
+	tw.Emit(Rec{"ev": "New", "trace": id, "headers": cmtNodes(h[0].Headers), "comments": cmtNodes(h[0].Comments), "canonicalq": canonq, "local": h[0].Local, "prefix": h[0].Prefix, "preamble": preNodes, "predoc": predoc,
 		"paths": info, "sorted": allPaths, "pkgname": func() string {
 			if h[0].Name == "" {
 				return "main"
@@ -184,6 +205,8 @@ func ReplayHistory(tw *TraceWriter, id int, h []Action) {
 	fB := newFile(h[0], true)
 	syms := map[string]string{}
 	nrefs := 0
+	bA, bB := NewBuilder(), NewBuilder()
+	body := []*Node{}
 	for _, a := range h[1:] {
 		switch a.A {
 		case "ImportName":
@@ -200,13 +223,16 @@ func ReplayHistory(tw *TraceWriter, id int, h []Action) {
 			tw.Emit(Rec{"ev": "Anon", "p": a.P})
 		case "Add":
 			Syms([]*Node{a.Tree}, syms)
-			fA.Add(NewBuilder().Code(a.Tree))
-			fB.Add(NewBuilder().Code(a.Tree))
+			fA.Add(bA.Code(a.Tree))
+			fB.Add(bB.Code(a.Tree))
+			body = append(body, a.Tree)
 			tw.Emit(Rec{"ev": "Add", "tree": a.Tree})
 			nrefs++
 		case "Render":
 			rA := renderFile(fA)
+			stop := watchDicts()
 			rB := renderFile(fB)
+			fixupDicts(bB, stop()) // the body as the NoFormat twin's render visited it (Dict first-pass orders)
 			src := rA.out
 			if rA.status != "nil" {
 				src = rB.out
@@ -224,7 +250,7 @@ func ReplayHistory(tw *TraceWriter, id int, h []Action) {
 			}
 			fm, fmok := Gofmt(rB.out)
 			tw.Emit(Rec{"ev": "Render", "status": rA.status, "rawstatus": rB.status, "specs": specs, "refs": refs, "bare": bare,
-				"raw": string(rB.out), "out": Hash(rA.out), "table": tableOf(fA), "parses": parses,
+				"raw": string(rB.out), "out": Hash(rA.out), "table": tableOf(fB), "parses": parses, "body": append([]*Node{}, body...),
 				"fmteq": rA.status == "nil" && fmok && bytes.Equal(fm, rA.out), "fmtok": fmok})
 			names := map[string]int{}
 			for _, s := range specs {
@@ -299,6 +325,15 @@ func cmdImports(args []string) {
 				id++
 				ReplayHistory(tw, id, h)
 			})
+		case "--compose":
+			// --compose table.json n
+			n := 0
+			fmt.Sscan(args[i+2], &n)
+			for _, h := range ComposeDriver(args[i+1], n) {
+				id++
+				ReplayHistory(tw, id, h)
+			}
+			i += 2
 		case "--driver":
 			i++
 			for _, h := range ImportDriver(args[i]) {
